@@ -78,7 +78,8 @@ SPELL = {"a": ["a", "A"], "b": ["B", "b"], "ab": ["aB", "AB", "ab", "Ab"]}
 BAD_NAMES = ["1a", "a-b", "a.b", "é", "$a", "${B}", "$$a", "a$b"]
 ENV_SET = "ZCSIM_E1"
 ENV_UNSET = "ZCSIM_E2"
-USE_STYLES = ["$%s", "${%s}", "p${%s}q", "$%s$%s"]
+USE_STYLES = ["$%s", "${%s}", "p${%s}q", "$%s$%s", "$%s.x", "$%s-y",
+              "x$%s", "$$$%s", "${%s}${%s}"]
 TOPS = ["file:///sim/c05/d1/top.conf", "http://sim.test/c05/d1/top.conf"]
 REFS = ["f%d.conf", "sub/f%d.conf", "../f%d.conf",
         "http://other.test/inc/f%d.conf", "file:///sim/abs/f%d.conf"]
@@ -221,9 +222,11 @@ def render(steps, url, store, k=None):
     for st in steps:
         op = st["op"]
         if op == "define":
-            lines.append(("%%define %s %s" % (st["name"], st["value"]))
+            sep = st.get("sep", " ")
+            lines.append(("%%define%s%s%s%s" % (sep, st["name"], sep,
+                                                st["value"]))
                          if st["value"] != "" or st.get("pad") else
-                         "%%define %s" % st["name"])
+                         "%%define%s%s" % (sep, st["name"]))
         elif op == "use":
             lines.append("k " + use_text(st))
         elif op == "section":
@@ -348,7 +351,10 @@ def random_step(rng):
                 rng, rng.choice(NAMES))])
     else:
         v = rng.choice(EXTRA_VALUES)
-    return {"op": "define", "name": name, "value": v}
+    st = {"op": "define", "name": name, "value": v}
+    if rng.random() < 0.15:
+        st["sep"] = rng.choice(["\t", "  ", " \t "])
+    return st
 
 
 def structure(rng, steps, depth=0, k=None, in_section=False):
